@@ -100,6 +100,23 @@ def run(ctx):
             rep.violation(dict(kind="re-evaluation-changes-result", top=trees[i][0]),
                           "C03 fails: %s evaluates to %s once but %s gives %s" % (texts[i], single, rt, got),
                           dict(tree=trees[i], text=rt, impl=got, expected=want))
+    # --- every base dimension counts, the last one (money) included: mixing it with anything else is rejected, and
+    # it multiplies/divides like any other
+    MONEY_BAD = ["5 eur to dozen", "12 rad to eur", "20 eur | h to Hz", "3 m eur to m", "5 eur + 5", "5 eur + 5 m", "5 eur < 5 s",
+                 "5 eur == 5", "1 usd to kg", "(6 eur) / (2 m) to eur", "7 to eur", "5 eur^2 to eur"]
+    MONEY_OK = [("(6 eur) / (2 eur)", "num"), ("(6 eur) * (2 m) / (3 m) to eur", "qty"), ("(20 eur | h) * (2 h) to eur", "qty"),
+                ("(6 eur m) / (2 m) + 1 eur", "qty"), ("6 eur < 7 eur", "num")]
+    mobs = C.run_impl(Q.impl_case, MONEY_BAD + [t for t, _ in MONEY_OK], ctx["rundir"], limit=10.0)
+    for text, o in zip(MONEY_BAD, mobs):
+        got = Q.impl_error_class(o)
+        if Q.parse_enc(got)[0] != "err":
+            rep.violation(dict(kind="mismatch-accepted", top="money", op=""),
+                          "C03 fails: %s mixes dimensions but evaluates to %s" % (text, got), dict(text=text, impl=got, expected="an error"))
+    for (text, kind), o in zip(MONEY_OK, mobs[len(MONEY_BAD):]):
+        got = Q.impl_error_class(o)
+        if Q.parse_enc(got)[0] == "err":
+            rep.violation(dict(kind="wrong-dimension", top="money", op=""),
+                          "C03 fails: %s is dimensionally fine but gives %s" % (text, got), dict(text=text, impl=got, expected="a value"))
     rep.coverage.update(dict(
         evaluations=len(trees) + len(rep_texts), distinct_nontrivial=len(nontrivial),
         rule="quantity expression trees over live-resolved unit spellings (symbol, singular, plural, every prefix): exhaustive operator x kind pair (Q/Q, Q/N, N/Q, N/N) x dimension relation, all six comparisons, conversions among length/time spellings and back, compound signatures with negative exponents, offset units in every position (%d), plus seeded random trees; non-trivial = not a bare literal; distinct by text" % n_exh,
